@@ -465,6 +465,27 @@ func GenStatement(t *rapid.T, label string, o Opts) []Tok {
 			if o.Markers {
 				hi = 6
 			}
+			// (not as the operand of LIKE: Gaea's grammar wants a simple expression there)
+			if !(i > 0 && tm[i-1].text == "like") && rapid.IntRange(0, 7).Draw(t, label+"_mm") == 0 {
+				// minus minus: 5--? , a--1 , 1--'7' , 2--(3): "--" without white space behind it is no comment
+				if rapid.Bool().Draw(t, label+"_mml") {
+					res = append(res, Tok{Num, GenNum(t, label+"_mmn")})
+				} else {
+					res = append(res, Tok{Word, GenWord(t, label+"_mmw")})
+				}
+				res = append(res, Tok{Op, "--"})
+				switch k := rapid.IntRange(0, 5).Draw(t, label+"_mmk"); {
+				case k <= 2 && o.Markers:
+					res = append(res, Tok{Marker, "?"})
+				case k == 3:
+					res = append(res, Tok{SQ, GenString(t, '\'', label+"_mms")})
+				case k == 4:
+					res = append(res, Tok{Op, "("}, Tok{Num, GenNum(t, label+"_mmp")}, Tok{Op, ")"})
+				default:
+					res = append(res, Tok{Num, GenNum(t, label+"_mmr")})
+				}
+				continue
+			}
 			switch rapid.IntRange(0, hi).Draw(t, label+"_vk") {
 			case 0:
 				res = append(res, Tok{Num, GenNum(t, label+"_num")})
@@ -517,6 +538,30 @@ func GenSoup(t *rapid.T, label string, withSemi bool) []Tok {
 			tk = Tok{Space, GenSpace(t, label+"_sp")}
 		default:
 			tk = Tok{Semi, ";"}
+		}
+		if !last && rapid.IntRange(0, 7).Draw(t, label+"_mm") == 0 {
+			// "--" NOT followed by white space is two minus signs, not a comment:
+			// 5--? a--? ?--? 1--1 --'x' --( ; what follows is ordinary code
+			if needSpace {
+				res = append(res, Tok{Space, " "})
+			}
+			res = append(res, Tok{Op, "--"})
+			var nx Tok
+			switch rapid.IntRange(0, 6).Draw(t, label+"_mmk") {
+			case 0, 1, 2:
+				nx = Tok{Marker, "?"}
+			case 3:
+				nx = Tok{Num, GenNum(t, label+"_mmn")}
+			case 4:
+				nx = Tok{Word, GenWord(t, label+"_mmw")}
+			case 5:
+				nx = Tok{SQ, GenString(t, '\'', label+"_mms")}
+			default:
+				nx = Tok{Op, "("}
+			}
+			res = append(res, nx)
+			needSpace = !(nx.K == Marker || nx.K == Op)
+			continue
 		}
 		punct := tk.K == Marker || tk.K == Semi || tk.K == Space || (tk.K == Op && tk.S != ".")
 		if needSpace && !punct {
